@@ -39,8 +39,8 @@ fn judge_sink(out: &crate::world::OutFile, earlier_csv: &[Vec<(String, Value)>],
     let data = match data {
         Some(d) => d.clone(),
         None => {
-            if relaxed && si > 0 {
-                return; // the first sink's header write failed: the second file was never opened
+            if relaxed {
+                return; // a failed open / header write: the file was never created
             }
             v.push(Violation { class: "file-missing".into(), detail: format!("output file of sink {} was not created", si) });
             return;
@@ -208,7 +208,10 @@ pub fn judge(case: &Case, obs: &Obs) -> (Vec<Violation>, BTreeMap<String, u64>, 
         None => return (v, reach, false),
     };
     let hard = case.simcfg.faults & sim::F_HARD != 0;
-    let hard_fired: u64 = obs.stats.faults.iter().filter(|(k, _)| k.starts_with("eio") || k.starts_with("enospc")).map(|(_, n)| *n).sum();
+    // the command-line runner never hands responses back: judged like the discard policy, as one run
+    let cli = case.params.get("cli").map_or(false, |c| c.is_object());
+    let persist = case.world.persist && !cli;
+    let hard_fired: u64 = obs.stats.faults.iter().filter(|(k, _)| k.starts_with("eio") || k.starts_with("enospc") || k.starts_with("eopen")).map(|(_, n)| *n).sum();
     if let Some(e) = &obs.build_error {
         v.push(Violation { class: "build-failed".into(), detail: format!("application failed to build: {}", e) });
         return (v, reach, false);
@@ -234,9 +237,9 @@ pub fn judge(case: &Case, obs: &Obs) -> (Vec<Violation>, BTreeMap<String, u64>, 
             n_search += k;
             expected_ref.extend(rs.into_iter().take(k));
         }
-        match obs.runs.get(bi) {
+        match obs.runs.get(if cli { 0 } else { bi }) {
             Some(Some(Ok(r))) => {
-                if case.world.persist {
+                if persist {
                     if r.len() < n_search {
                         v.push(Violation { class: "returned-count".into(), detail: format!("run {} returned {} responses, {} search responses expected", bi, r.len(), n_search) });
                         all_ok = false;
@@ -264,7 +267,7 @@ pub fn judge(case: &Case, obs: &Obs) -> (Vec<Violation>, BTreeMap<String, u64>, 
         // a failed write is reported: a run that returns Ok for everything after an EIO / ENOSPC has
         // swallowed the error (an acknowledged response is then missing from the file)
         let header_write_hit = obs.build_error.is_some();
-        if all_ok && !header_write_hit && obs.runs.len() == case.batches.len() {
+        if all_ok && !header_write_hit && (cli || obs.runs.len() == case.batches.len()) {
             v.push(Violation { class: "hard-fault-swallowed".into(), detail: format!("{} hard write fault(s) were injected but every run() returned Ok", hard_fired) });
         }
     }
@@ -286,10 +289,10 @@ pub fn judge(case: &Case, obs: &Obs) -> (Vec<Violation>, BTreeMap<String, u64>, 
                 earlier_csv.push(mapping.clone());
             }
         }
-        judge_sink(sink, &earlier_csv, data, si, &expected_ref, &returned_search, all_ok, relaxed, hard_fired, any_csv, case.world.persist, &mut v, &mut bump);
+        judge_sink(sink, &earlier_csv, data, si, &expected_ref, &returned_search, all_ok, relaxed, hard_fired, any_csv, persist, &mut v, &mut bump);
     }
     // the response handed back still carries what the isolated response carries
-    if case.world.persist && all_ok {
+    if persist && all_ok {
         let mut by_req: BTreeMap<String, Vec<&Value>> = BTreeMap::new();
         for r in &returned_search {
             by_req.entry(essence(r).request).or_default().push(r);
@@ -324,7 +327,7 @@ impl Check for C19 {
         "C19"
     }
     fn families(&self, _tier: Tier) -> Vec<&'static str> {
-        vec!["schedule", "legal-faults", "legal-faults", "hard-faults"]
+        vec!["schedule", "legal-faults", "cli", "legal-faults", "hard-faults", "schedule", "legal-faults", "hard-faults", "cli-hard"]
     }
     fn default_runs(&self, tier: Tier) -> u64 {
         match tier {
@@ -337,13 +340,36 @@ impl Check for C19 {
         c.family = family.to_string();
         let mut r = sim::Rng::new(seed ^ 0xC19);
         c.simcfg.fault_paths = vec!["/sim/out".into()];
+        if family.starts_with("cli") {
+            // the command-line runner: newline-delimited query file read in chunks, one run() per chunk,
+            // all appending to the same output file(s); the query file is read under short reads / EINTR
+            let total: usize = c.batches.iter().map(|b| b.len()).sum();
+            let chunk = match r.below(4) {
+                0 => 1,
+                1 => r.range(1, total.max(1) as u64) as i64,
+                2 => r.range(1, 5) as i64,
+                _ => 1000,
+            };
+            c.params = json!({"cli": {"chunksize": chunk, "crlf": r.chance(0.2), "no_final_newline": r.chance(0.3)}});
+            c.simcfg.fault_paths = vec!["/sim/out".into(), "/sim/queries".into()];
+        }
         match family {
+            "cli" => {
+                c.simcfg.faults = sim::F_SHORT_WRITE | sim::F_EINTR_WRITE | sim::F_SHORT_READ | sim::F_EINTR_READ;
+                c.simcfg.io_fault_rate = *r.pick(&[0.0, 0.05, 0.2, 0.5]);
+            }
+            "cli-hard" => {
+                c.simcfg.fault_paths = vec!["/sim/out".into()];
+                c.simcfg.faults = sim::F_SHORT_WRITE | sim::F_EINTR_WRITE | *r.pick(&[sim::F_EIO_WRITE, sim::F_ENOSPC_WRITE, sim::F_EOPEN]);
+                c.simcfg.io_fault_rate = *r.pick(&[0.05, 0.2]);
+                c.simcfg.max_hard_faults = 1;
+            }
             "legal-faults" => {
                 c.simcfg.faults = sim::F_SHORT_WRITE | sim::F_EINTR_WRITE;
                 c.simcfg.io_fault_rate = *r.pick(&[0.05, 0.2, 0.5]);
             }
             "hard-faults" => {
-                c.simcfg.faults = sim::F_SHORT_WRITE | sim::F_EINTR_WRITE | if r.chance(0.5) { sim::F_EIO_WRITE } else { sim::F_ENOSPC_WRITE };
+                c.simcfg.faults = sim::F_SHORT_WRITE | sim::F_EINTR_WRITE | *r.pick(&[sim::F_EIO_WRITE, sim::F_ENOSPC_WRITE, sim::F_EIO_WRITE, sim::F_ENOSPC_WRITE, sim::F_EOPEN]);
                 c.simcfg.io_fault_rate = *r.pick(&[0.05, 0.2]);
                 c.simcfg.max_hard_faults = 1;
             }
